@@ -68,6 +68,14 @@ def programs():
         [("varargs", "referenced", {"BUILD.dawn": "def h(*a):\n    return a\n" + T + "    print(h(1))\n"})])
     add("helper-signature-kwargs", "def h(kw):\n    return kw\n" + T + "    print(h(kw=1))\n",
         [("kwargs", "referenced", {"BUILD.dawn": "def h(**kw):\n    return kw\n" + T + "    print(h(kw=1))\n"})])
+    # the name of a parameter is part of the code (callers pass it by keyword) although the
+    # bytecode addresses parameters by index
+    add("helper-parameter-renamed", "def greet(name):\n    return \"hi \" + name\n" + T + "    print(greet(\"w\"))\n",
+        [("renamed", "referenced", {"BUILD.dawn": "def greet(who):\n    return \"hi \" + who\n" + T + "    print(greet(\"w\"))\n"})])
+    add("nested-kwonly-parameter-renamed", T + "    def fmt(x, *, width):\n        return str(x) + str(width)\n    print(fmt(1, **{\"width\": 2}))\n",
+        [("renamed", "referenced", {"BUILD.dawn": T + "    def fmt(x, *, pad):\n        return str(x) + str(pad)\n    print(fmt(1, **{\"width\": 2}))\n"})])
+    add("varargs-parameter-renamed", "def h(*xs, **opts):\n    return (xs, opts)\n" + T + "    print(h(1))\n",
+        [("renamed", "referenced", {"BUILD.dawn": "def h(*ys, **opts):\n    return (ys, opts)\n" + T + "    print(h(1))\n"})])
     add("unassigned-free-variable", "def outer():\n    def inner():\n        return y\n    if False:\n        y = 1\n    return inner\nG = outer()\n" + T + "    print(G)\n")
     add("self-containing-list", "X = [1]\nX.append(X)\n" + T + "    print(len(X))\n",
         [("element", "referenced", {"BUILD.dawn": "X = [2]\nX.append(X)\n" + T + "    print(len(X))\n"})])
